@@ -13,3 +13,17 @@ func (mq *MessageQueue) VerifQueuedBlockSizes() []uint64 {
 	}
 	return out
 }
+
+// VerifQueuedNonEmpty reports, under the builders lock, how many queued builders hold content
+// (verification hook, build tag verif).
+func (mq *MessageQueue) VerifQueuedNonEmpty() int {
+	mq.buildersLk.RLock()
+	defer mq.buildersLk.RUnlock()
+	n := 0
+	for _, b := range mq.builders {
+		if !b.Empty() {
+			n++
+		}
+	}
+	return n
+}
